@@ -38,7 +38,8 @@ type hstate struct {
 	verify     func(t tokens.Token) error
 	validResp  []byte
 	lastToken  *tokens.Token
-	holdsOther bool // the request object currently holds the other request (after decode-other-request)
+	returned   [][]byte // byte slices of tokens returned to the caller so far
+	holdsOther bool     // the request object currently holds the other request (after decode-other-request)
 }
 
 func (s *hstate) record(name string, live func() []byte) {
@@ -197,7 +198,7 @@ func initState(typ int) *hstate {
 	return s
 }
 
-var histOps = []string{"snap-fields", "snap-marshal", "marshal", "finalize-valid", "finalize-invalid", "evaluate", "verify-token", "decode-other-request", "decode-own-request"}
+var histOps = []string{"snap-fields", "snap-marshal", "marshal", "finalize-valid", "finalize-invalid", "evaluate", "verify-token", "decode-other-request", "decode-own-request", "caller-overwrites-returned-tokens"}
 
 func applyHist(s *hstate, op hop) (string, *mc.Viol) {
 	out := op.Op
@@ -237,6 +238,15 @@ func applyHist(s *hstate, op hop) (string, *mc.Viol) {
 				v = &mc.Viol{Sig: fmt.Sprintf("type%d: finalization writes to the response it was given", s.typ), What: d}
 				return
 			}
+			if op.Op == "finalize-valid" && err == nil && s.verify != nil {
+				for _, t := range toks {
+					if verr := s.verify(t); verr != nil {
+						out = "finalize-valid:invalid-token"
+						v = &mc.Viol{Sig: fmt.Sprintf("type%d: finalization of the honest response yields an invalid token after earlier calls on the same state", s.typ), What: verr.Error()}
+						return
+					}
+				}
+			}
 			if op.Op == "finalize-valid" {
 				if err != nil {
 					out = "finalize-valid:error"
@@ -245,6 +255,7 @@ func applyHist(s *hstate, op hop) (string, *mc.Viol) {
 				}
 				for i := range toks {
 					t := toks[i]
+					s.returned = append(s.returned, t.Nonce, t.Context, t.KeyID, t.Authenticator)
 					s.lastToken = &t
 					s.record(fmt.Sprintf("token %d nonce", i), func() []byte { return t.Nonce })
 					s.record(fmt.Sprintf("token %d context", i), func() []byte { return t.Context })
@@ -275,6 +286,21 @@ func applyHist(s *hstate, op hop) (string, *mc.Viol) {
 				return
 			}
 			s.holdsOther = holds == "other"
+		case "caller-overwrites-returned-tokens":
+			// what an operation returned belongs to the caller: it wipes the tokens (and responses)
+			// it was given; the objects must not have kept references into them
+			if len(s.returned) == 0 {
+				out = "caller-overwrites:none"
+				return
+			}
+			for _, b := range s.returned {
+				for i := range b {
+					b[i] = 0xDD
+				}
+			}
+			s.returned = nil
+			s.lastToken = nil
+			s.snaps = nil // the wiped values are no longer expected to keep their contents
 		case "verify-token":
 			if s.lastToken == nil || s.verify == nil {
 				out = "verify-token:none"
